@@ -45,3 +45,15 @@ package autoconf
 //@   site[new_version_gets_its_own_file] call:writeOwnerOnlyFile#0 : arg0 == res("call:Join#0", 0) && arg1 == data
 //@   site[named_after_the_clock] call:Join#0 : len(arg0) == 2 && arg0[1] == res("call:Sprintf#0", 0)
 //@   ensures[config_write_failure_reported] res("call:writeOwnerOnlyFile#0", 0) != nil ==> err != nil
+
+// ---- C45: a readable cached configuration always wins over the fallback ----------------------------
+// GetCached asks for the cached configuration alone: whatever else a cache update writes next to it
+// (the refresh time stamp) plays no part in whether the cached configuration is used
+//@ func (*Client).GetCached
+//@   prop C45
+//@   arith int-assumed
+//@   requires c != nil
+//@   modifies all
+//@   ensures[an_intact_cached_configuration_is_returned] called("call:Client.getCachedConfig#0") && res("call:Client.getCachedConfig#0", 1) == nil ==> result == res("call:Client.getCachedConfig#0", 0)
+//@   ensures[the_cache_is_consulted_whenever_its_directory_is_known] res("call:Client.getCacheDir#0", 1) == nil ==> called("call:Client.getCachedConfig#0")
+//@   site[looks_in_the_cache_directory] call:Client.getCachedConfig : arg1 == res("call:Client.getCacheDir#0", 0)
